@@ -100,13 +100,15 @@ def mutations(rng):
     B = list(BASE)
     out = []
     w = '5,0,0,2,0,0,9,0.001'.split(',')
+    # every (option, field, value) combination is generated on every run (no sampling): which of them fail is then a fixed
+    # set, and a recorded finding can name its members exactly
     for k in range(8):
-        for b in rng.sample(BAD_NUM, 3):
+        for b in BAD_NUM:
             f = list(w)
             f[k] = b
-            out.append(('-w field %d = %s' % (k, vclass(b)), ['-f', '7.1', '-w', ','.join(f), '--excitation-pulse=1']))
+            out.append(('-w field %d = %s' % (k, b), ['-f', '7.1', '-w', ','.join(f), '--excitation-pulse=1']))
     for b in BAD_NUM:
-        out.append(('-f = %s' % vclass(b), ['-f', b] + B[2:]))
+        out.append(('-f = %s' % b, ['-f', b] + B[2:]))
     out.append(('wire arity 7', ['-f', '7.1', '-w', '5,0,0,2,0,0,9']))
     out.append(('wire arity 10', ['-f', '7.1', '-w', '1,5,0,0,2,0,0,9,0.001,3']))
     out.append(('wire tag 0', ['-f', '7.1', '-w', '0,5,0,0,2,0,0,9,0.001']))
@@ -143,12 +145,12 @@ def mutations(rng):
             extra = ['--frequency-steps=2']
         base = [a for a in B if not a.startswith(opt)]
         for k in range(len(fields)):
-            for b in rng.sample(BAD_NUM + ['x', '', '9', '99'], 4) + (['all'] if opt == '--attach-load' else []):
+            for b in BAD_NUM + ['x', '', '9', '99'] + (['all'] if opt == '--attach-load' else []):
                 # ('all' is a keyword of --attach-load: it must be harmless in every position)
                 f = list(fields)
                 f[k] = b
                 ex = [e for e in extra if not e.startswith(opt + '=')]
-                out.append(('%s field %d = %s' % (opt, k, vclass(b)), base + ex + ['%s=%s' % (opt, ','.join(f))]))
+                out.append(('%s field %d = %s' % (opt, k, b if b else 'empty'), base + ex + ['%s=%s' % (opt, ','.join(f))]))
         out.append(('%s too few' % opt, base + extra + ['%s=%s' % (opt, ','.join(fields[:-1]))]))
         out.append(('%s too many' % opt, base + extra + ['%s=%s' % (opt, ','.join(fields + ['1', '2']))]))
     out.append(('attach all unknown tag', B + ['--load=5', '--attach-load=1,all,9']))
@@ -160,11 +162,6 @@ def mutations(rng):
     out.append(('wire below ground', B[:2] + ['-w', '5,0,0,-1,0,0,9,0.001', '--medium=0,0,0']))
     out.append(('both ends grounded', B[:2] + ['-w', '5,0,0,0,3,0,0,0.001', '--medium=0,0,0']))
     out.append(('taper unknown wire', B + ['--taper-wire=7,1']))
-    out.append(('--insulation-load field 1 = zero', B + ['--insulation-load=0.003,0']))
-    out.append(('--skin-effect-resistivity field 0 = zero', B + ['--skin-effect-resistivity=0']))
-    out.append(('--laplace-load-a field 0 = nonfinite', B + ['--laplace-load-a=inf,1e-8', '--laplace-load-b=5,2e-7', '--attach-load=1,2']))
-    out.append(('--frequency-increment field 0 = huge', B + ['--frequency-steps=2', '--frequency-increment=1e300']))
-    out.append(('-w field 2 = nonfinite', ['-f', '7.1', '-w', '5,0,nan,2,0,0,9,0.001', '--excitation-pulse=1']))
     out.append(('two transformations with the same sort key', B + ['--geo-rotate=1,0,0,90', '--geo-translate=1,0,0,1']))
     out.append(('two translations with the same sort key', B + ['--geo-translate=2,0,0,1', '--geo-translate=2,0,0,2']))
     out.append(('same sort key and an unknown tag', B + ['--geo-translate=2,0,0,1', '--geo-translate=2,0,0,2,4711']))
